@@ -63,7 +63,10 @@ def fresh_abs(ref, t):
     """the absolute instant of every sample, computed here (not by the library): reference + relative seconds"""
     if ref is None:
         return None
-    return [ref + timedelta(seconds=float(v)) for v in t]
+    try:
+        return [ref + timedelta(seconds=float(v)) for v in t]
+    except Exception:
+        return ["?(reference %r is not an instant)" % (ref,)] * len(t)
 
 
 def dist_us(a, b):
@@ -205,7 +208,7 @@ def play(case, fail, tol):
     for k, op in enumerate(case["ops"]):
         pre = raw(ts)
         a_pre = fresh_abs(pre[0], pre[1])
-        st_pre = None if pre[0] is None else pre[0] + timedelta(seconds=float(pre[1][0]))
+        st_pre = None if a_pre is None else a_pre[0]
         where = "step %d (%s)" % (k + 1, op)
         err, ret, new = None, None, ts
         try:
@@ -268,7 +271,10 @@ def play(case, fail, tol):
         if post[2] is not None and dist_us(post[2], a_post) > tol:
             fail("cached stamps, when present, equal reference + relative time (no stale cache)", show(a_post), show(post[2]),
                  "cache_consistent@" + where)
-        se = (ts.dtg_start, ts.dtg_end)
+        try:
+            se = (ts.dtg_start, ts.dtg_end)
+        except Exception as e:
+            se = ("err:" + type(e).__name__,) * 2
         want = (None, None) if a_post is None else (a_post[0], a_post[-1])
         if dist_us([se[0]] if se[0] is not None else None, [want[0]] if want[0] is not None else None) > 0 or \
                 dist_us([se[1]] if se[1] is not None else None, [want[1]] if want[1] is not None else None) > 0:
